@@ -101,6 +101,59 @@ func (s *State) freshVal(t types.Type, hint string) Val {
 var additiveStr = []string{"blen", "nl", "vlen"}
 var conjStr = []string{"clean", "wf", "sgr0", "digits", "noNL", "noCTL"}
 
+// strAtom: one piece of a flattened concatenation: a literal (text) or an opaque term.
+type strAtom struct {
+	lit  bool
+	text string // literal text
+	term string // opaque SMT term
+}
+
+// strParts flattens a string term into the concatenation it was built from (literals merged).
+func (c *FnCtx) strParts(t string) []strAtom {
+	if t == "emp" {
+		return nil
+	}
+	if p, ok := c.catParts[t]; ok {
+		return p
+	}
+	if txt, ok := c.litText[t]; ok {
+		return []strAtom{{lit: true, text: txt}}
+	}
+	return []strAtom{{term: t}}
+}
+
+// catCanon builds the canonical (right-nested, adjacent literals merged) term for a concatenation, so that
+// concatenations that are equal by associativity and literal folding become syntactically identical.
+func (c *FnCtx) catCanon(a, b string) string {
+	parts := append(append([]strAtom(nil), c.strParts(a)...), c.strParts(b)...)
+	var merged []strAtom
+	for _, p := range parts {
+		if p.lit && len(merged) > 0 && merged[len(merged)-1].lit {
+			merged[len(merged)-1].text += p.text
+			continue
+		}
+		if p.lit && p.text == "" {
+			continue
+		}
+		merged = append(merged, p)
+	}
+	if len(merged) == 0 {
+		return "emp"
+	}
+	atom := func(p strAtom) string {
+		if p.lit {
+			return c.lit(p.text)
+		}
+		return p.term
+	}
+	t := atom(merged[len(merged)-1])
+	for i := len(merged) - 2; i >= 0; i-- {
+		t = app("cat", atom(merged[i]), t)
+	}
+	c.catParts[t] = merged
+	return t
+}
+
 func (s *State) cat(a, b Val) Val {
 	if a.S == "emp" {
 		return Val{T: a.T, S: b.S}
@@ -108,7 +161,11 @@ func (s *State) cat(a, b Val) Val {
 	if b.S == "emp" {
 		return Val{T: a.T, S: a.S}
 	}
-	r := s.define("cat", sStr, app("cat", a.S, b.S))
+	canon := s.c.catCanon(a.S, b.S)
+	r := s.define("cat", sStr, canon)
+	s.c.catParts[r] = s.c.catParts[canon]
+	// homomorphism facts for the split the program made
+	s.assume(eq(r, app("cat", a.S, b.S)))
 	s.catFacts(r, a.S, b.S)
 	return Val{T: a.T, S: r}
 }
@@ -186,8 +243,20 @@ func (s *State) box(v Val, ifaceT types.Type) Val {
 	case "pSlice":
 		pay = app("pSlice", v.Sl.Base, v.Sl.Off, v.Sl.Len, v.Sl.Cap)
 	case "pOther":
-		// struct or array values boxed into interfaces: opaque identity
+		// struct or array values boxed into interfaces: opaque identity; the value itself is remembered on
+		// the Go side so that an immediate type assertion gets it back
 		pay = app("pOther", s.c.freshConst("box", sInt))
+		name := s.define("ifc", sIface, app("mkI", tag, pay))
+		if s.boxed == nil {
+			s.boxed = map[string]Val{}
+		}
+		nb := make(map[string]Val, len(s.boxed)+1)
+		for k, bv := range s.boxed {
+			nb[k] = bv
+		}
+		nb[name] = v
+		s.boxed = nb
+		return Val{T: ifaceT, S: name}
 	default:
 		if v.S == "" {
 			s.unsupported("boxing a pointer with static address")
@@ -209,6 +278,9 @@ func (s *State) unbox(x Val, t types.Type) Val {
 		s.typeFacts(v)
 		return v
 	case "pOther":
+		if bv, ok := s.boxed[x.S]; ok && types.Identical(bv.T, t) {
+			return bv
+		}
 		return s.freshVal(t, "unbox")
 	}
 	v := Val{T: t, S: s.define("ub", sortOfKind(kindOf(t)), app(acc, pay))}
